@@ -322,11 +322,12 @@ func (r *run) extensions() []explore.Violation {
 					}
 				}
 			}
+			clause := "converge"
 			if key != "" && r.tainted[key] {
-				sig += "+stale-own-action"
-				msg += " [a session had acted on this message while an older update about it was still undelivered to it]"
+				msg = "[converge/" + sig + "] " + msg + " [a session had acted on this message while an older update about it was still undelivered to it]"
+				clause, sig = "ordering-defect", "+stale-own-action"
 			}
-			out = append(out, r.viol("C02", "converge", sig, fmt.Sprintf("session %d after quiescence + NOOP: %s; session rows %s, fresh rows %s", i, msg, rowsString(rows), rowsString(fresh))))
+			out = append(out, r.viol("C02", clause, sig, fmt.Sprintf("session %d after quiescence + NOOP: %s; session rows %s, fresh rows %s", i, msg, rowsString(rows), rowsString(fresh))))
 		}
 	}
 	if r.broken != "" {
